@@ -5,34 +5,37 @@ package props
 
 import (
 	"fmt"
+	"strings"
 
 	"pgregory.net/rapid"
 )
 
 type histProfile struct {
-	MaxBlocks   int
-	MinBlocksOf []int
-	TxKinds     []string // sampled uniformly (repeat to weight)
-	MaxTxs      int
-	Evidence    int // 1 in N blocks carries evidence (0 = never)
-	Missed      int // 1 in N blocks has missed votes (0 = never)
-	Restart     int // 1 in N blocks restarts after commit (0 = never)
-	Mutations   []string
-	Modes       []string // tx modes
-	Queries     bool
-	WrongSigner int // 1 in N txs signed by another key (0 = never)
-	ExtraSign   bool
-	SmallParams bool // short unstaking time, small window, small MaxValidators
-	Windows     []int64
-	MaxVals     []uint64
-	FixedMin    bool
-	GovHandover bool // generate ACL / DAO-owner hand-overs with real pool addresses
-	Scripts     bool // insert a focused per-validator action sequence (one validator, one action per block)
-	Batches     bool // insert blocks in which several validators perform the same action together
-	seed        int
+	MaxBlocks       int
+	MinBlocksOf     []int
+	TxKinds         []string // sampled uniformly (repeat to weight)
+	MaxTxs          int
+	Evidence        int // 1 in N blocks carries evidence (0 = never)
+	Missed          int // 1 in N blocks has missed votes (0 = never)
+	Restart         int // 1 in N blocks restarts after commit (0 = never)
+	Mutations       []string
+	Modes           []string // tx modes
+	Queries         bool
+	WrongSigner     int // 1 in N txs signed by another key (0 = never)
+	ExtraSign       bool
+	SmallParams     bool // short unstaking time, small window, small MaxValidators
+	Windows         []int64
+	MaxVals         []uint64
+	FixedMin        bool
+	GovHandover     bool       // generate ACL / DAO-owner hand-overs with real pool addresses
+	Scripts         bool       // insert a focused per-validator action sequence (one validator, one action per block)
+	Batches         bool       // insert blocks in which several validators perform the same action together
+	ScriptTemplates [][]string // when set: the validator script always uses one of these action sequences ("x!" = short time step before x, "burn1" = burn request of 100%)
+	Anchor          bool       // in half of the histories one genesis validator is never accused, absent, unstaked or burned, so that the set rarely empties
+	seed            int
 }
 
-var defaultTxKinds = []string{"send", "send", "stake", "stake", "unstake", "unjail", "award", "award", "burn", "param", "dao", "upgrade", "raw"}
+var defaultTxKinds = []string{"send", "send", "stake", "stake", "unstake", "unjail", "award", "award", "burn", "param", "dao", "upgrade", "raw", "structmut"}
 
 func genGenesis(t *rapid.T, pr *histProfile) hGenesis {
 	g := hGenesis{}
@@ -127,7 +130,8 @@ func genTx(pr *histProfile) func(t *rapid.T) hTx {
 		if rapid.IntRange(0, 7).Draw(t, "tomod") == 0 {
 			tx.To = 100 + rapid.IntRange(0, 3).Draw(t, "module")
 		}
-		tx.Entropy = rapid.Int64().Draw(t, "entropy")
+		// entropies as clients draw them: mostly of full 63-bit magnitude (beyond what a float64 holds exactly)
+		tx.Entropy = rapid.OneOf(rapid.Int64(), rapid.Int64Range(1<<53, 1<<63-1), rapid.Int64Range(-1<<63, -(1<<53))).Draw(t, "entropy")
 		tx.KeyInSig = rapid.IntRange(0, 3).Draw(t, "keyinsig") != 0
 		switch rapid.IntRange(0, 9).Draw(t, "feeshape") {
 		case 0:
@@ -223,6 +227,10 @@ func genTx(pr *histProfile) func(t *rapid.T) hTx {
 			tx.Str = rapid.SampledFrom([]string{"0.0.2", "1.0.0", ""}).Draw(t, "upversion")
 		case "raw":
 			tx.Str = fmt.Sprintf("%x", rapid.SliceOfN(rapid.Byte(), 0, 40).Draw(t, "rawbytes"))
+		case "structmut":
+			tx.Str = rapid.SampledFrom([]string{"drop", "drop", "drop", "dup", "empty", "empty", "rewire", "swap", "renumber", "tx:drop", "tx:dup", "tx:empty", "tx:rewire"}).Draw(t, "structop")
+			tx.Amt = int64(rapid.IntRange(0, 5).Draw(t, "structfield"))
+			tx.To = rapid.IntRange(0, 11).Draw(t, "structkind")
 		case "rawmut":
 			tx.Str = rapid.SampledFrom([]string{"truncate", "flip", "flip", "splice", "lenprefix", "append"}).Draw(t, "rawmutkind")
 			tx.Amt = int64(rapid.IntRange(0, 400).Draw(t, "rawmutpos"))
@@ -343,7 +351,7 @@ func genHistory(t *rapid.T, pr *histProfile) *hProg {
 	p.Blocks = rapid.SliceOfN(rapid.Custom(genBlock(pr)), minB, maxB).Draw(t, "blocks")
 	if pr.Scripts && rapid.Bool().Draw(t, "script") {
 		at := rapid.IntRange(0, len(p.Blocks)).Draw(t, "scriptat")
-		script := genValidatorScript(t, &p.Gen)
+		script := genValidatorScript(t, &p.Gen, pr.ScriptTemplates)
 		p.Blocks = append(p.Blocks[:at], append(script, p.Blocks[at:]...)...)
 	}
 	if pr.Batches && rapid.IntRange(0, 2).Draw(t, "batch") == 0 {
@@ -351,7 +359,31 @@ func genHistory(t *rapid.T, pr *histProfile) *hProg {
 		script := genBatchScript(t, &p.Gen)
 		p.Blocks = append(p.Blocks[:at], append(script, p.Blocks[at:]...)...)
 	}
+	if pr.Anchor && len(p.Gen.Validators) > 0 && rapid.Bool().Draw(t, "anchor") {
+		p.Gen.Anchor = p.Gen.Validators[0].Key + 1
+		applyAnchor(p, p.Gen.Validators[0].Key)
+	}
 	return p
+}
+
+// applyAnchor rewrites a history so that validator key `a` keeps its seat: no begin-unstake and no burn
+// request names it (they are redirected to the next key); the executor never reports it absent or accused
+// (hGenesis.Anchor). Tendermint refuses an update that empties its set, after which nothing more can be
+// learnt from a history.
+func applyAnchor(p *hProg, a int) {
+	other := (a + 1) % 8
+	for bi := range p.Blocks {
+		b := &p.Blocks[bi]
+		for ti := range b.Txs {
+			tx := &b.Txs[ti]
+			if tx.Kind == "unstake" && tx.From == a {
+				tx.From, tx.To = other, other
+			}
+			if tx.Kind == "burn" && tx.To == a {
+				tx.To = other
+			}
+		}
+	}
 }
 
 // genBatchScript: blocks in which 2-6 validators perform the SAME action together (all begin unstaking,
@@ -409,10 +441,10 @@ func genBatchScript(t *rapid.T, g *hGenesis) []hBlock {
 		case "wait":
 		case "evidence":
 			for _, k := range order {
-				b.Evidence = append(b.Evidence, hEvidence{Val: k, HeightAgo: int64(rapid.IntRange(0, 2).Draw(t, "beh"))})
+				b.Evidence = append(b.Evidence, hEvidence{Val: k, ByKey: true, HeightAgo: int64(rapid.IntRange(0, 2).Draw(t, "beh"))})
 			}
 		case "missed":
-			b.Missed = append([]int{}, order...)
+			b.MissedKeys = append([]int{}, order...)
 		default:
 			for j, k := range order {
 				tx := hTx{Kind: a, From: k, To: k, SignWith: -1, KeyInSig: true, Entropy: 9000 + int64(i*10+j)}
@@ -435,7 +467,7 @@ func genBatchScript(t *rapid.T, g *hGenesis) []hBlock {
 // action (stake / begin-unstake / unjail / burn request / double-sign evidence against every known
 // validator / nothing) and a time step related to the unstaking and jail durations, so that
 // interleavings such as unstake -> convicted -> re-stake -> unstake -> first maturity time are reached.
-func genValidatorScript(t *rapid.T, g *hGenesis) []hBlock {
+func genValidatorScript(t *rapid.T, g *hGenesis, templates [][]string) []hBlock {
 	key := rapid.IntRange(0, 7).Draw(t, "skey")
 	if len(g.Validators) > 0 && rapid.IntRange(0, 3).Draw(t, "sgenesisval") != 0 {
 		key = g.Validators[rapid.IntRange(0, len(g.Validators)-1).Draw(t, "sval")].Key
@@ -450,6 +482,10 @@ func genValidatorScript(t *rapid.T, g *hGenesis) []hBlock {
 		case "burn":
 			tx.From = rapid.IntRange(0, 9).Draw(t, "sburner")
 			tx.Str = rapid.SampledFrom([]string{"0.01", "0.5", "1", "0"}).Draw(t, "ssev")
+		case "burn1":
+			tx.Kind = "burn"
+			tx.From = rapid.IntRange(0, 9).Draw(t, "sburner1")
+			tx.Str = "1"
 		}
 		return tx
 	}
@@ -461,7 +497,9 @@ func genValidatorScript(t *rapid.T, g *hGenesis) []hBlock {
 		return ev
 	}
 	var actions []string
-	if rapid.IntRange(0, 3).Draw(t, "template") == 0 {
+	if len(templates) > 0 && rapid.IntRange(0, 3).Draw(t, "ptemplate") != 0 {
+		actions = rapid.SampledFrom(templates).Draw(t, "ptmpl")
+	} else if rapid.IntRange(0, 3).Draw(t, "template") == 0 {
 		actions = rapid.SampledFrom([][]string{
 			{"unstake", "evidence", "stake", "unstake", "wait", "wait"},
 			{"unstake", "burn", "wait", "wait"},
@@ -470,11 +508,15 @@ func genValidatorScript(t *rapid.T, g *hGenesis) []hBlock {
 			{"burn", "unstake", "stake", "wait"},
 		}).Draw(t, "tmpl")
 	} else {
-		actions = rapid.SliceOfN(rapid.SampledFrom([]string{"stake", "stake", "stake", "unstake", "unstake", "unstake", "evidence", "evidence", "wait", "wait", "burn", "unjail"}), 3, 8).Draw(t, "sactions")
+		actions = rapid.SliceOfN(rapid.SampledFrom([]string{"stake", "stake", "stake", "unstake", "unstake", "unstake", "evidence", "evidence", "wait", "wait", "burn", "unjail", "unjail", "downtime"}), 3, 8).Draw(t, "sactions")
 	}
 	var out []hBlock
 	for i, a := range actions {
 		b := hBlock{DTSec: rapid.SampledFrom(steps).Draw(t, "sdt"), Proposer: rapid.IntRange(0, 3).Draw(t, "sprop")}
+		if strings.HasSuffix(a, "!") {
+			a = strings.TrimSuffix(a, "!")
+			b.DTSec = rapid.SampledFrom([]int64{0, 1, 5}).Draw(t, "sshort")
+		}
 		if b.DTSec < 0 {
 			b.DTSec = 0
 		}
@@ -482,6 +524,13 @@ func genValidatorScript(t *rapid.T, g *hGenesis) []hBlock {
 		case "evidence":
 			b.Evidence = allEvidence()
 		case "wait":
+		case "downtime":
+			// the validator is absent for a whole signing window (one-second blocks): jailed for downtime unless
+			// the threshold is zero
+			for j := int64(0); j < g.Window+3 && j < 45; j++ {
+				out = append(out, hBlock{DTSec: 1, Proposer: rapid.IntRange(0, 3).Draw(t, "sdprop"), MissedKeys: []int{key}})
+			}
+			b.DTSec = rapid.SampledFrom([]int64{0, 1, 5}).Draw(t, "sddt")
 		default:
 			b.Txs = []hTx{mkTx(a, int64(i))}
 		}
